@@ -752,7 +752,10 @@ def flow_prepare_event_data(event: TraceEvent, _: AbstractContext) -> list[Trace
 
         # Peers and Peer are diffent entries and here we unify to make it "Peers"
         if "Peer" in event["args"]:
-            event["args"][_KEY_PEER] = event["args"].pop("Peer")
+            peer = event["args"].pop("Peer")
+            # keep an existing list of peers (e.g. the union built by the communication summarization)
+            if _KEY_PEER not in event["args"]:
+                event["args"][_KEY_PEER] = peer
 
         return event
 
